@@ -83,7 +83,7 @@ MIN_EVENTS = {"op-applied": (30000, 250000), "closure:list-judged": (100000, 800
               "closure:dataset-judged": (15000, 120000), "closure:array-judged": (10000, 80000),
               "closure:removed-tree-judged": (20000, 160000), "frame:tree-judged": (250000, 2000000),
               "item:unify-judged": (70000, 500000), "item:same-judged": (30000, 240000), "item:add-judged": (9000, 70000),
-              "item:distinct-judged": (5000, 40000), "item:memo-judged": (100, 800), "read-judged": (4000, 30000),
+              "item:distinct-judged": (5000, 40000), "item:memo-judged": (100, 800), "read-judged": (4000, 30000), "read-into-given-namespace-judged": (300, 2400),
               "unify-judged": (300, 2400), "list-content-judged": (20000, 160000), "matrix-rows-judged": (3000, 24000),
               "documented-error-seen": (1000, 8000), "history-completed": (1000, 8000),
               "hook:TreeList.append:return": (3000, 24000), "hook:TreeList.insert:return": (1500, 12000),
@@ -939,10 +939,22 @@ class Driver(object):
         from dendropy.utility import error
         ds = self.D(d)
         att = ds.attached_taxon_namespace
-        schema, text, labels, rows = self._doc(d, att)
-        E = Expect("DataSet.read", schema + ("/attached" if att is not None else "/detached"))
-        E.reads = {"trees": labels, "rows": rows, "dataset": ds}
+        # a detached data set may be told which namespace to read into (seeded change C11c: an EMPTY one was ignored)
+        kwns = None
+        if att is None and pick(d, "into_ns", lambda: self.rng.random() < 0.45):
+            def choose():
+                empty = [i for i, x in enumerate(self.w.namespaces) if len(x) == 0]
+                if empty and self.rng.random() < 0.5:
+                    return self.rng.choice(empty)
+                return self.rng.randrange(len(self.w.namespaces))
+            kwns = self.NS(pick(d, "into_which", choose) % len(self.w.namespaces))
+        schema, text, labels, rows = self._doc(d, att if att is not None else kwns)
+        E = Expect("DataSet.read", schema + ("/attached" if att is not None else ("/detached-into-given-namespace" if kwns is not None else "/detached")))
+        E.reads = {"trees": labels, "rows": rows, "dataset": ds, "ns": kwns}
         kw = {}
+        if kwns is not None:
+            kw["taxon_namespace"] = kwns
+            kw["case_sensitive_taxon_labels"] = bool(kwns.is_case_sensitive)
         if schema == "fasta":
             kw["data_type"] = "dna"
         if att is not None:
@@ -1050,7 +1062,7 @@ def random_setup(rng, uni):
     n_ns = rng.randint(2, 4)
     for i in range(n_ns):
         cs = rng.random() < 0.3
-        labels = rng.sample(uni, rng.randint(0, len(uni) // 2))
+        labels = rng.sample(uni, rng.randint(0, len(uni) // 2)) if rng.random() > 0.2 else []
         if not cs and rng.random() < 0.8:
             labels = U.canon_distinct(labels)
         ops.append({"op": "mk_ns", "cs": cs, "labels": labels})
